@@ -221,7 +221,7 @@ def judge(r):
             v.append(("exit-not-exactly-once", "admitted request (handler %s): the entry completed %d time(s) (callbacks: %d), want exactly 1" % (r["handler"], ncomp, r["completed"])))
         if seen and r["handler_calls"] == 1 and r.get("seq", "passed,handler,completed") != "passed,handler,completed":
             v.append(("entry-not-open-while-handler-runs", "the handler did not run between the entry's admission and its completion: order of events %s" % r.get("seq")))
-        if r["handler"] == "err" and r["handler_can_return_error"] and nerr != 1:
+        if r["handler"] in ("err", "errtyped") and r["handler_can_return_error"] and nerr != 1:
             v.append(("handler-error-not-traced", "the handler returned an error but the entry completed without it (node error count %d)" % nerr))
         if r["handler"] == "ok" and nerr != 0:
             v.append(("error-traced-without-error", "the handler succeeded but an error was traced"))
@@ -328,7 +328,7 @@ def main():
     rep["bounds"] = {
         "adapters": len(res), "entry_point_modes": len(modes), "entry_call_sites_in_tree": len(sites),
         "entry_call_sites_executed": len(sites) - len(uncovered),
-        "inputs_per_mode": "2 decisions x 2 fallback settings x 3 handler behaviours (x 2 request shapes - live / already cancelled context - where the entry point takes the caller's context: grpc, hertz, kitex, kratos, micro)" + (" + every ordered pair of requests on one resource" if tier == "thorough" else ""),
+        "inputs_per_mode": "2 decisions x 2 fallback settings x 4 handler behaviours (ok, plain error, panic, the framework's typed client error) (x 2 request shapes - live / already cancelled context - where the entry point takes the caller's context: grpc, hertz, kitex, kratos, micro)" + (" + every ordered pair of requests on one resource" if tier == "thorough" else ""),
         "statement_coverage_of_adapter_packages": {r["adapter"]: "%d/%d" % (r["stmts_hit"], r["stmts"]) for r in res},
         "core_linked": {r["adapter"]: ("/repo working tree" if (r["adapter"] in LINK_REPO_CORE or r["adapter"] in ("kitex", "kratos", "micro")) else "release pinned by the adapter's go.mod") for r in res},
     }
